@@ -69,7 +69,7 @@ CHECKS['C05'] = ('E-OMP', 'engines/e_omp.py',
 
 CHECKS['C14'] = ('E-INTERP', 'engines/e_interp.py',
     'deterministic simulation (history dimension): seeded histories of interpolate / move+update / h change / value change / update_particle_arrays / set_interpolation_points on the real Interpolator (5 methods, generated evaluators) and, for 30% of the runs, the same equations through SPHEvaluator, each result compared with brute-force defining sums using the Python kernel classes',
-    'seeded search over 1-3 source arrays, dims 1-3, variable h / mass / density, properties missing in some arrays, explicit targets (1-D or 2-D arrays in C / Fortran order, integer-typed, zero coordinates left out) or the automatic grid, periodic domains, kernels, and re-binding/update histories; results compared at the user's own target points, result shape, earlier results unchanged; Shepard / sph / splash / splash_norm against their sums (zero where no source is in range, Shepard bounds), order1 against the solved moment system and linear-field reproduction where well conditioned. Sampling, not proof.',
+    'seeded search over 1-3 source arrays, dims 1-3, variable h / mass / density, properties missing in some arrays, explicit targets (1-D or 2-D arrays in C / Fortran order, integer-typed, zero coordinates left out) or the automatic grid, periodic domains, kernels, and re-binding/update histories; results compared at the user\'s own target points, result shape, earlier results unchanged; Shepard / sph / splash / splash_norm against their sums (zero where no source is in range, Shepard bounds), order1 against the solved moment system and linear-field reproduction where well conditioned. Sampling, not proof.',
     'oracle reads the source arrays as they are (ghost creation is C07\'s subject) and the target h the interpolator holds; 1e-9 relative tolerance; order1 skipped where cond(moment) >= 1e6',
     'DESIGN.md section 3 E-INTERP')
 
